@@ -12,8 +12,8 @@
    *content* of a JSON string as JSON text, which is an oracle ([reparse], Section variable).
 
    Every behaviour of the Go code that departs from GraphQL input coercion is kept, each one behind a
-   flag of [quirks]; [go_quirks] (all on) IS the code as it exists and is what every theorem about
-   "the implementation" speaks of.  Turning a flag off gives the behaviour a repair of that single cause
+   flag of [quirks]; [go_quirks] IS the code as it exists (flags of repaired causes are off in it, [old_quirks]
+   has them all on) and is what every theorem about "the implementation" speaks of.  Turning a flag off gives the behaviour a repair of that single cause
    would have; the check uses this to attribute a failing case to a cause (DESIGN.md 2.3).
    No proofs in this file. *)
 From Gv Require Import lib.Bytes lib.Json lib.Gql C06.Num.
@@ -44,7 +44,15 @@ Record quirks := {
   q_remap_collision : bool     (* validator: an Upload variable (never renamed) whose name equals a mapper-generated
                                   name is looked up under the variable that was renamed to it *)
 }.
-Definition go_quirks : quirks := Build_quirks true true true true true true true true true.
+(* the code before the repairs of /repo recorded as "fixed:" in KNOWN_FINDINGS.txt: every deviation present *)
+Definition old_quirks : quirks := Build_quirks true true true true true true true true true.
+(* THE CODE AS IT IS.  Repaired since (fixed: field-null-uses-field-default, list-element-null-uses-field-default,
+   inject-defaults-index-drift, inject-defaults-enum-ref, inject-defaults-string-reparsed): those flags are off. *)
+Definition go_quirks : quirks :=
+  {| q_int_any_number := true; q_id_any_number := true; q_upload_exempt := true;
+     q_field_null_default := false; q_elem_null_default := false;
+     q_inject_drift := false; q_inject_kind := false; q_inject_reparse := false;
+     q_remap_collision := true |}.
 Definition no_quirks : quirks := Build_quirks false false false false false false false false false.
 
 (* ------------------------------------------------------------------ type helpers *)
@@ -520,6 +528,8 @@ Section Inject.
         | JStr _ => IErr   (* only reachable with q_inject_reparse off *)
         | _ =>
           let ex := jget (iv_name f) v in
+          (* repaired code: a member that is a JSON string is left alone ("continue") *)
+          if negb (q_inject_reparse q) && (match ex with Some (JStr _) => true | _ => false end) then inject_loop v r final any else
           if is_scalar_or_enum (iv_type f) then
             match iv_default f, ex with
             | Some d, None =>
@@ -702,6 +712,8 @@ Section Pipeline.
     match obj_get n ms2 with
     | None => NOk ms2
     | Some v =>
+      (* repaired code: a JSON string is not handed to processObjectOrListInput at all *)
+      if negb (q_inject_reparse q) && (match v with JStr _ => true | _ => false end) then NOk ms2 else
       if is_scalar_or_enum S (vd_type vd) then NOk ms2 else
         match inject q S reparse (inject_budget S v) (vd_type vd) v with
         | IOk nv true => NOk (set_member n nv ms2)
